@@ -44,6 +44,7 @@ type runner struct {
 	aborted string // set when the process can no longer be trusted (a goroutine is spinning)
 	known   map[string]bool
 	ids     int
+	hangs   int
 }
 
 func (Engine) Run(ctx *hk.RunCtx) error {
@@ -60,7 +61,7 @@ func (Engine) Run(ctx *hk.RunCtx) error {
 	}
 	r := &runner{ctx: ctx, res: ctx.Res, db: &dbProc{}, known: loadKnown(), ids: 1000}
 	defer r.db.close()
-	r.res.Rule = "SQL strings (fixed hostile list, arity/argument-kind matrix for every dispatch-table function, generated queries and their token mutations) and insert scripts; distinct by canonical case JSON; non-trivial = sqlparser accepts the string (the dispatch in sql.go is reached) resp. the script contains at least one bad payload"
+	r.res.Rule = "SQL strings (fixed hostile list, sign/magnitude matrix of every numeric and duration parameter in four clause contexts, arity/argument-kind matrix for every dispatch-table function, generated queries and their token mutations) and insert scripts; distinct by canonical case JSON; non-trivial = sqlparser accepts the string (the dispatch in sql.go is reached) resp. the script contains at least one bad payload"
 	if ctx.Model == nil {
 		r.res.Note("running without the model: property oracle only")
 	}
@@ -88,6 +89,15 @@ func (Engine) Run(ctx *hk.RunCtx) error {
 			break
 		}
 		r.sqlCase(s, "hostile", next())
+	}
+	// sign / magnitude matrix of every numeric and duration parameter
+	for _, c := range numericCases(ctx.Tier != "quick", ctx.Seed) {
+		if r.aborted != "" {
+			break
+		}
+		r.res.Hit("numeric-slot:" + c.slot)
+		r.res.Hit("numeric-context:" + c.context)
+		r.numericCase(c, next())
 	}
 	// every function of the dispatch tables × arity × argument kind × clause; the quick tier
 	// runs a third of its (smaller) matrix per run, rotating with the seed
@@ -200,11 +210,17 @@ func (r *runner) replay(path string, origin string) error {
 
 // ---------------------------------------------------------------- SQL cases
 
-// dbStages runs the stages that execute plans — mock table, mock cluster, the
-// real database behind gRPC — in the database process.
-func (r *runner) dbStages(s string, o *sqlOutcome) {
+// runSQL executes all stages of one SQL string in the database process (the
+// child): sql.Parse, sql.TableFor, Fields.Get, planner.Plan + iteration against
+// the mock table (locally and as cluster leader) and the query through the gRPC
+// front end of a real database.  A stage that does not answer in time is run
+// once more in a fresh process with four times the time before it counts as a
+// hang.  (withDB is kept for the callers' readability: everything runs there.)
+func (r *runner) runSQL(s string, withDB bool) *sqlOutcome {
+	skipped := stageResult{Class: clsSkip}
+	o := &sqlOutcome{Parse: skipped, TableFor: skipped, Fields: skipped, Plan: skipped, Cluster: skipped, Query: skipped}
 	skip := func(msg string) stageResult { return stageResult{Class: clsSkip, Msg: msg} }
-	cr, err := r.db.call(&childReq{Op: "query", SQL: s}, 60*time.Second)
+	cr, err := r.db.call(&childReq{Op: "query", SQL: s}, 90*time.Second)
 	timedOut := func() bool {
 		if err != nil || cr.Crashed {
 			return false
@@ -212,7 +228,11 @@ func (r *runner) dbStages(s string, o *sqlOutcome) {
 		if cr.Hung {
 			return true
 		}
-		for _, st := range []*stageResult{cr.Resp.Plan, cr.Resp.Cluster, cr.Resp.Query} {
+		sts := []*stageResult{cr.Resp.Plan, cr.Resp.Cluster, cr.Resp.Query}
+		if cr.Resp.Pure != nil {
+			sts = append(sts, &cr.Resp.Pure.Parse, &cr.Resp.Pure.TableFor, &cr.Resp.Pure.Fields)
+		}
+		for _, st := range sts {
 			if st != nil && st.Class == clsHang {
 				return true
 			}
@@ -222,11 +242,8 @@ func (r *runner) dbStages(s string, o *sqlOutcome) {
 	if timedOut() {
 		// slow or stuck?  once more in a fresh process with four times the time
 		r.res.Hit("retry-after-timeout")
-		if r.db.c != nil {
-			r.db.c.kill()
-			r.db.c = nil
-		}
-		cr, err = r.db.call(&childReq{Op: "query", SQL: s, Slow: true}, 240*time.Second)
+		r.dropChild()
+		cr, err = r.db.call(&childReq{Op: "query", SQL: s, Slow: true}, 360*time.Second)
 	}
 	switch {
 	case err != nil:
@@ -240,6 +257,9 @@ func (r *runner) dbStages(s string, o *sqlOutcome) {
 		r.res.Inconclusive++
 		o.Query = skip("child: " + cr.Resp.Err)
 	default:
+		if cr.Resp.Pure != nil {
+			o.Parse, o.TableFor, o.Fields = cr.Resp.Pure.Parse, cr.Resp.Pure.TableFor, cr.Resp.Pure.Fields
+		}
 		if cr.Resp.Plan != nil {
 			o.Plan = *cr.Resp.Plan
 		}
@@ -252,26 +272,19 @@ func (r *runner) dbStages(s string, o *sqlOutcome) {
 		if cr.Resp.Fatal != "" {
 			o.Query = stageResult{Class: clsPanic, Msg: "process-fatal error (DB.Panic): " + cr.Resp.Fatal, Site: "DB.Panic", Inner: "process"}
 		}
-		if o.Plan.Class == clsHang || o.Cluster.Class == clsHang {
+		if _, st, bad := o.worst(); bad && st.Class == clsHang {
 			// a goroutine of the child is stuck: start from a fresh process
-			if r.db.c != nil {
-				r.db.c.kill()
-				r.db.c = nil
-			}
+			r.dropChild()
 		}
 	}
+	return o
 }
 
-// runSQL executes all stages.
-func (r *runner) runSQL(s string, withDB bool) *sqlOutcome {
-	o := runPure(s)
-	if _, st, bad := o.worst(); bad && st.Class == clsHang {
-		return o
+func (r *runner) dropChild() {
+	if r.db.c != nil {
+		r.db.c.kill()
+		r.db.c = nil
 	}
-	if withDB {
-		r.dbStages(s, o)
-	}
-	return o
 }
 
 func inSet(cls string, set []string) bool {
@@ -288,6 +301,12 @@ var knownFieldsJSON = []interface{}{
 }
 
 func (r *runner) sqlCase(s string, origin string, idx uint64) {
+	r.sqlCaseOutcome(s, origin, idx)
+}
+
+// sqlCaseOutcome runs one SQL string through all stages and oracles and returns the
+// implementation's outcome (nil when the case ended in a property failure).
+func (r *runner) sqlCaseOutcome(s string, origin string, idx uint64) *sqlOutcome {
 	res := r.res
 	st, parsed := libParse(s)
 	canon := J{"stream": "sql", "sql": s}
@@ -307,7 +326,14 @@ func (r *runner) sqlCase(s string, origin string, idx uint64) {
 	} else {
 		res.Hit("stmt:unparsable")
 	}
+	t0 := time.Now()
 	o := r.runSQL(s, true)
+	if d := time.Since(t0); d > 2*time.Second {
+		res.Hit("slow-case(>2s)")
+		if os.Getenv("ZVH_TRACE") != "" {
+			fmt.Fprintf(os.Stderr, "slow %.1fs %q %+v\n", d.Seconds(), s, *o)
+		}
+	}
 	for name, sr := range o.stages() {
 		res.Hit(name + ":" + sr.Class)
 		if sr.thirdPartyEval() {
@@ -325,14 +351,29 @@ func (r *runner) sqlCase(s string, origin string, idx uint64) {
 			Impl:   r.runSQLIfSafe(min, sr, o),
 			Detail: fmt.Sprintf("%s: %s at %s", stage, sr.Class, siteLabel(sr)),
 		})
-		if sr.Class == clsHang && (stage == "parse" || stage == "tablefor" || stage == "fields") {
-			r.aborted = "a goroutine of the harness is stuck in " + stage + " of " + trunc(s, 120)
+		if sr.Class == clsHang {
+			// every confirmed hang costs two timeouts and a database process: two of them are
+			// verdict enough, the rest of the run would mostly wait
+			r.hangs++
+			if r.hangs >= 2 {
+				r.aborted = "two inputs made a stage hang (see the property failures); the remaining cases were not run"
+			}
 		}
-		return
+		return nil
+	}
+	// ---- resource oracle: the size of what a query makes the server build must stay within a
+	// generous multiple of the code's own cap
+	if stage, sr, big := r.oversized(s, o); big {
+		bound, capText := sizeBound(s)
+		res.Disagree(hk.Disagreement{Kind: "property", PropertyFails: true, Index: idx,
+			Case: J{"stream": "sql", "sql": s}, Impl: o,
+			Detail: fmt.Sprintf("unbounded work from client-controlled parameter: %s produced %s fields (bound %d; %s)", stage, magnitude(sr.N), bound, capText),
+		})
+		return nil
 	}
 	// ---- model vs implementation
 	if r.ctx.Model == nil {
-		return
+		return o
 	}
 	if !parsed {
 		// sqlparser rejects the text (or would not terminate on it): every entry point must return an error
@@ -345,13 +386,13 @@ func (r *runner) sqlCase(s string, origin string, idx uint64) {
 					Detail: p.name + " of a string sqlparser rejects"})
 			}
 		}
-		return
+		return o
 	}
 	req := J{"engine": "robust", "op": "parse", "stmt": sumStmt(st), "known": knownFieldsJSON}
 	out, err := r.ctx.Model.Call(req)
 	if err != nil {
 		res.Disagree(hk.Disagreement{Kind: "model-vs-impl", Index: idx, Case: canon, Detail: "model cannot evaluate the summary: " + err.Error()})
-		return
+		return o
 	}
 	var m struct {
 		WF         bool     `json:"wf"`
@@ -362,7 +403,7 @@ func (r *runner) sqlCase(s string, origin string, idx uint64) {
 	}
 	if err := json.Unmarshal(out, &m); err != nil {
 		res.Disagree(hk.Disagreement{Kind: "model-vs-impl", Index: idx, Case: canon, Detail: "bad model reply"})
-		return
+		return o
 	}
 	if m.OrigPanics {
 		res.Hit("model:panics-before-fixes")
@@ -389,6 +430,65 @@ func (r *runner) sqlCase(s string, origin string, idx uint64) {
 	check("tablefor", o.TableFor, m.TableFor)
 	if o.Parse.Class == clsOK {
 		check("fields", o.Fields, m.Fields)
+	}
+	return o
+}
+
+// oversized: does a stage report more fields than sizeBound allows?
+func (r *runner) oversized(s string, o *sqlOutcome) (string, stageResult, bool) {
+	bound, _ := sizeBound(s)
+	st := o.stages()
+	for _, n := range stageOrder {
+		if st[n].N > bound {
+			return n, st[n], true
+		}
+	}
+	return "", stageResult{}, false
+}
+
+// magnitude keeps the detail line (by which disagreements are grouped) stable.
+func magnitude(n int) string {
+	switch {
+	case n >= 1000000:
+		return "over 1e6"
+	case n >= 100000:
+		return "over 1e5"
+	case n >= 10000:
+		return "over 1e4"
+	}
+	return "over " + fmt.Sprint(n/1000*1000)
+}
+
+// numericCase runs one case of the numeric matrix: the general oracles of sqlCase, and for a
+// query that is nothing but one CROSSHIFT the exact number of fields the model predicts.
+func (r *runner) numericCase(c numCase, idx uint64) {
+	before := r.res.NDisagreements
+	o := r.sqlCaseOutcome(c.sql, "numeric", idx)
+	if o == nil || r.ctx.Model == nil || !c.pureCrosshift || r.res.NDisagreements != before {
+		return
+	}
+	cOk, cNs := durationFacts(c.cutoff)
+	iOk, iNs := durationFacts(c.interval)
+	if !cOk || !iOk {
+		return
+	}
+	req := J{"engine": "robust", "op": "crosshift", "cutoff": fmt.Sprint(cNs), "interval": fmt.Sprint(iNs)}
+	out, err := r.ctx.Model.Call(req)
+	if err != nil {
+		r.res.Disagree(hk.Disagreement{Kind: "model-vs-impl", Index: idx, Case: J{"stream": "sql", "sql": c.sql}, Detail: "model cannot evaluate crosshift: " + err.Error()})
+		return
+	}
+	var m struct {
+		Outcome string `json:"outcome"` // error | fields | diverges | wraps
+		N       int    `json:"n"`
+	}
+	json.Unmarshal(out, &m)
+	r.res.Hit("model-crosshift:" + m.Outcome)
+	impl := J{"class": o.Fields.Class, "n": o.Fields.N}
+	ok := (m.Outcome == "error" && o.Fields.Class == clsError) || (m.Outcome == "fields" && o.Fields.Class == clsOK && o.Fields.N == m.N)
+	if !ok {
+		r.res.Disagree(hk.Disagreement{Kind: "model-vs-impl", Index: idx, Case: J{"stream": "sql", "sql": c.sql, "cutoff_ns": cNs, "interval_ns": iNs},
+			Impl: impl, Model: m, Detail: "number of fields a CROSSHIFT expands to"})
 	}
 }
 
